@@ -23,7 +23,15 @@ theorem source_facts :
     addPathReadsInForce = true ∧ delPathReadsInForce = true ∧ walletReadsCfgMinValue = [] ∧
     useMapCntWriters = ["InitMaps", "LoadBalances"] ∧
     useMapCntSources = ["int(common.Get(&common.CFG.AllBalances.UseMapCnt))"] ∧
-    delPathSortedSearches = [] := by
+    delPathSortedSearches = [] ∧
+    addPathConditionsDependOn =
+      ["<useMapCnt>", "OneAllAddrBal", "OneAllAddrBal.unsp", "OneAllAddrBal.unspMap", "Script2Idx()", "[]byte", "allBalances",
+       "allBalances.unsp", "allBalances.unspMap", "common.AllBalMinVal()", "utxo.UtxoRec.Outs", "utxo.UtxoRec.Outs.PKScr",
+       "utxo.UtxoRec.Outs.Value"] ∧
+    delPathConditionsDependOn =
+      ["Script2Idx()", "[]bool", "[]byte", "allBalances", "allBalances.unsp", "allBalances.unspMap", "common.AllBalMinVal()",
+       "utxo.UtxoRec.Outs", "utxo.UtxoRec.Outs.PKScr", "utxo.UtxoRec.Outs.Value"] ∧
+    minValGetterReturns = ["atomic.LoadUint64(&<minVal>)"] := by
   decide
 
 /-- Reset leaves the minimum in force alone (by the generated fact `resetMayWriteMinVal = false`) -/
